@@ -114,7 +114,7 @@ func runC05(r *core.Run) int {
 				return
 			}
 			hit := false
-			for s := 0; s <= len(runes); s++ {
+			for s := 0; s <= len(runes); s += offsetStep(len(runes), s) {
 				detail, got, want, incon, matched := rewriteCompare(on, off, runes, s)
 				l.Eval(1)
 				if incon != "" {
